@@ -112,12 +112,14 @@ pub uninterp spec fn limit_value(m: MaxTopicSize, c: &SystemConfig) -> MaxTopicS
 // --- Topic: construction, validation and persistence are other subsystems; persistence returns Ok (fault scope of C06) ---
 impl Topic {
     // Topic::get_max_topic_size — ASSUMED here (verdict and value uninterpreted), PROVED in units topic_limit and wiring ([C15.valid.*])
+    // LINKED (limit_ok / limit_value INTERPRETED as !limit_rejected / limit_resolved): units/wiring/lemmas.rs, harness [C15.link.catalogue_maps.get_max_topic_size] (mirror edits there)
     #[verifier::external_body]
     pub fn get_max_topic_size(max_topic_size: MaxTopicSize, config: &SystemConfig) -> (r: Result<MaxTopicSize, IggyError>)
         ensures r is Ok <==> limit_ok(max_topic_size, config), r matches Ok(v) ==> v == limit_value(max_topic_size, config),
     { unimplemented!() }
     // Topic::get_message_expiry — ASSUMED here (value uninterpreted), PROVED in units retention ([C14.open.resolve], [C14.shape.resolve])
     // and wiring ([C14.create.resolve]): the server default resolves to the configured expiry, anything else is kept
+    // LINKED (expiry_value INTERPRETED as expiry_resolved): units/wiring/lemmas.rs, harness [C14.link.catalogue_maps.get_message_expiry] (mirror edits there)
     #[verifier::external_body]
     pub fn get_message_expiry(message_expiry: IggyExpiry, config: &SystemConfig) -> (r: IggyExpiry)
         ensures r == expiry_value(message_expiry, config),
@@ -131,6 +133,7 @@ impl Topic {
     { unimplemented!() }
     #[verifier::external_body]
     pub fn persist(&self) -> (r: Result<(), IggyError>) ensures r is Ok { unimplemented!() }
+    // LINKED: units/catalogue_more/lemmas.rs, harness [C06.link.runtime_more.topic_delete] (mirror edits there)
     #[verifier::external_body]
     pub fn delete(&self) -> (r: Result<(), IggyError>) ensures r is Ok { unimplemented!() }
 }
@@ -173,6 +176,8 @@ impl Metrics {
 pub struct ClientManager { x: u8 }
 impl ClientManager {
     pub uninterp spec fn purged_streams(&self) -> Set<u32>;
+    // LINKED: units/client_memberships/lemmas.rs, harness [C06.link.runtime_more.delete_consumer_groups_for_stream] (mirror edits there). The link INTERPRETS
+    // purged_streams() over the real client table: the stream ids in which NO client holds a membership; the clause is then [C06.cascade.stream].
     #[verifier::external_body]
     pub fn delete_consumer_groups_for_stream(&mut self, stream_id: u32)
         ensures final(self).purged_streams() == old(self).purged_streams().insert(stream_id),
@@ -240,6 +245,7 @@ impl Stream {
     { unimplemented!() }
     #[verifier::external_body]
     pub fn persist(&self) -> (r: Result<(), IggyError>) ensures r is Ok { unimplemented!() }
+    // LINKED: units/catalogue_more/lemmas.rs, harness [C06.link.runtime_more.stream_delete] (mirror edits there)
     #[verifier::external_body]
     pub fn delete(&self) -> (r: Result<(), IggyError>) ensures r is Ok { unimplemented!() }
     #[verifier::external_body]
@@ -358,10 +364,21 @@ pub open spec fn names_same(a: &System, b: &System) -> bool {
 pub struct StateKind { x: u8 }
 impl StateKind {
     pub uninterp spec fn log(&self) -> Seq<EntryCommand>;
+    // LINKED (relational reading, not verbatim): units/journal/lemmas.rs, harness [C05.link.alloc_runtime.apply] proves both clauses from the real
+    // FileState::apply with `log()` read as "a ghost sequence the journal file DENOTES" (valid journal whose entries carry, in order, the
+    // journal forms `cmd_bytes` of the logged commands): Ok => the new file denotes log.push(..); Err => it denotes log or log.push(..)
+    // OR - a case this stub does not list - the write was torn and the file is no journal any more (the loader refuses it at the next
+    // start). The real function's preconditions are NOT carried here: the journal invariant `jwf` (broken by a failed apply: F16),
+    // `command.payload_fits()` (payload below 4 GiB) and unit journal's scope `encryptor is None`. The VALUE-level equation on `log()` as a
+    // function needs `cmd_bytes` injective = the round trip of unit journal_cmd ([C13.journal.cmd.rt]): still stated, not linked.
     #[verifier::external_body]
     pub fn apply(&mut self, user_id: u32, command: EntryCommand) -> (r: Result<(), IggyError>)
         ensures r is Ok ==> final(self).log() == old(self).log().push(command),
-            r is Err ==> final(self).log() == old(self).log(),
+            // WEAKENED by link pass 2 (was: `r is Err ==> final(self).log() == old(self).log()`): the real FileState::apply returns Err
+            // also AFTER the entry reached the file (FileWithSyncPersister::append: write_all Ok, then sync_all fails -> CannotSyncFile,
+            // server/src/streaming/persistence/persister.rs), so a failed apply may or may not have written the entry - the form units
+            // journal_sinks / credentials already use
+            r is Err ==> (final(self).log() == old(self).log() || final(self).log() == old(self).log().push(command)),
     { unimplemented!() }
 }
 pub open spec fn journalled_one(old_log: Seq<EntryCommand>, new_log: Seq<EntryCommand>) -> bool {
